@@ -2,7 +2,7 @@
 # bn.sh make            : (re)create scratch trees /tmp/bn/<name>/repo for every /verif/benign/*.diff
 # bn.sh run <name> Cxx..: run checks on one tree
 # bn.sh all [Cxx..]     : run checks (default all) on every tree, print non-silent ones
-export VERIF_CACHE_MAX=60
+export VERIF_CACHE_MAX=160
 ALL="C01 C02 C03 C04 C05 C06 C07 C08 C09 C10 C11 C12 C13 C14 C15 C16 C17 C18 C19 C20"
 case "$1" in
 make)
